@@ -243,6 +243,12 @@ func merge[EntityT entity.Interface](def Definition, wrapper func(e *Entity) Ent
 // Remove delete an Entity.
 // Remove is idempotent.
 func Remove(def Definition, repo repository.ClockedRepo, id entity.Id) error {
+	// the id becomes part of reference names: an unchecked one (e.g. "../heads/main") would
+	// designate, and delete, a reference outside the entity namespace
+	if err := id.Validate(); err != nil {
+		return errors.Wrap(err, "invalid id")
+	}
+
 	var matches []string
 
 	ref := fmt.Sprintf("refs/%s/%s", def.Namespace, id.String())
